@@ -326,10 +326,17 @@ def jobs_c20(tier, known):
             trip = [(a, (a + 3) % NM, (a + 7) % NM)] if tier == "quick" else [(a, b, (a + b + 1) % NM) for b in range(NM)]
             for t in trip:
                 js.append(sj(kernel, 3, 1, t, dl))
-        # free-running pass under ThreadSanitizer: the large sweeping reader bodies on 2..16 real threads
-        for nt in (2, 4, 8, 16):
-            args = ["--kernel", kernel, "--threads", str(nt), "--reps", "10" if tier == "quick" else "60"]
-            js.append({"id": "C20-tsan-%s-t%d" % (kernel, nt), "cfg": "tsan", "bin": "thrmc_tsan", "args": args, "replay_args": args, "timeout": 1200})
+        # the same micro-queries on the "big" fixture (vertex 0 has 8 incident cells: size-dependent code paths), <= 1 preemption
+        bigq = (0, 1, 2, 8, 9, 10, 13, 14)
+        for a in bigq:
+            for b in bigq:
+                if tier == "thorough" or a == b or a == 0 or b == 0:
+                    js.append(sj(kernel + "B", 2, 1, (a, b), dl))
+        # free-running pass under ThreadSanitizer: the large sweeping reader bodies on 2..16 real threads, both fixtures
+        for kk in (kernel, kernel + "B"):
+            for nt in (2, 4, 8, 16):
+                args = ["--kernel", kk, "--threads", str(nt), "--reps", "40" if tier == "quick" else "400"]
+                js.append({"id": "C20-tsan-%s-t%d" % (kk, nt), "cfg": "tsan", "bin": "thrmc_tsan", "args": args, "replay_args": args, "timeout": 1200})
     return js
 
 
